@@ -135,7 +135,8 @@ func (r *Router) ServeHTTP(res http.ResponseWriter, req *http.Request) {
 func (r *Router) HandleContext(c *Context) {
 	c.Reset()
 	r.handleHTTPRequest(c)
-	r.ctxPool.Put(c)
+	// the context is still owned by the caller (usually a handler inside ServeHTTP,
+	// which returns it to the pool); putting it here too would hand it out twice.
 }
 
 // handle HTTP Request
